@@ -93,7 +93,10 @@ def replay_failure(failure):
     from .mirsym_engine import run_replay
     role = failure.role
     cmd = None
-    if "waiter-sleeps-with-count-zero" in role:
+    scen = (failure.cex or {}).get("scenario") or {}
+    if "waiter-sleeps-with-count-zero" in role and scen.get("waiters", 1) > 1:
+        cmd, needle = f"waitgroup_waiters {scen['waiters']}\n", "BLOCKED with count=0"
+    elif "waiter-sleeps-with-count-zero" in role:
         cmd, needle = "waitgroup_race\n", "waitgroup wait BLOCKED count=0"
     elif "sender-sleeps-although-a-peer-connected" in role:
         cmd, needle = "lb_wait_race\n", "lb wait BLOCKED peers=1"
